@@ -363,6 +363,8 @@ func checkC17(c *Ctx) {
 	checkMatchersPaired(c, "C17.matchers-paired")
 	unitRule(c, "C17.units", []string{"(*core.Line).Cut", "(*core.Line).CutRune", "(*core.Line).Insert", "(*core.Line).InsertBetween", "(*core.Selection).Cut", "(*core.Selection).Pop", "(*core.Selection).Text"}, 1)
 	checkRangeKeepsEmpty(c, "C17.empty-range-kept")
+	checkDoubledOperatorCancels(c, "C17.doubled-operator-cancels")
+	checkSuggestionNotUnderOperator(c, "C17.suggestion-not-as-motion")
 	checkC17PendingGuard(c)
 	checkRound4Misc(c, "C17")
 }
